@@ -892,6 +892,7 @@ package lorawan
 //@   props C03 C09 C10
 //@   modifies data[0:len(data)]
 //@   ensures C03/ok: err == nil && len(result) == len(data)
+//@   ensures C03,C10/result-region: samebase(result, data) || fresh(result)
 //@   ensures C03/keystream: forall k int :: 0 <= k && k < len(data) ==> result[k] == old(data[k]) ^ ks_byte(key, uplink, devAddr, fCnt, k)
 //@   loop 0: invariant bounds: 0 <= i && i <= len(data) / 16
 //@   loop 0: invariant done: forall k int :: 0 <= k && k < i << 4 ==> data[k] == entry(data[k]) ^ ks_byte(key, uplink, devAddr, fCnt, k)
@@ -907,6 +908,7 @@ package lorawan
 //@   modifies data[0:len(data)]
 //@   ensures C03/range: (err == nil) == (len(data) <= 15)
 //@   ensures C03/ok: err == nil ==> len(result) == len(data)
+//@   ensures C03,C10/result-region: err == nil ==> samebase(result, data) || fresh(result)
 //@   ensures C03/keystream: err == nil ==> forall k int :: 0 <= k && k < len(data) ==> result[k] == old(data[k]) ^ fopts_ks(nwkSEncKey, aFCntDown, uplink, devAddr, fCnt)[k]
 //@   loop 0: invariant bounds: rangeindex >= 0 - 1 && rangeindex < len(data)
 //@   loop 0: invariant done: forall k int :: 0 <= k && k <= rangeindex ==> data[k] == entry(data[k]) ^ s[k]
@@ -992,8 +994,8 @@ package lorawan
 //@   let ack = mpl(p).FHDR.FCtrl.ACK
 //@   let hb = mhdr_byte(p.MHDR)
 //@   ensures C02/type: err == nil ==> istype(p.MACPayload, "*MACPayload")
-//@   ensures C02/mic10: err == nil && macVersion == LoRaWAN1_0 ==> result0[0] == cmac(fNwkSIntKey, cat(blk_up0(da, fc, 1 + len(callres("(MACPayload).MarshalBinary", 0)[0])), cat(seq(hb), bytes(callres("(MACPayload).MarshalBinary", 0)[0]))))[0] && result0[1] == cmac(fNwkSIntKey, cat(blk_up0(da, fc, 1 + len(callres("(MACPayload).MarshalBinary", 0)[0])), cat(seq(hb), bytes(callres("(MACPayload).MarshalBinary", 0)[0]))))[1] && result0[2] == cmac(fNwkSIntKey, cat(blk_up0(da, fc, 1 + len(callres("(MACPayload).MarshalBinary", 0)[0])), cat(seq(hb), bytes(callres("(MACPayload).MarshalBinary", 0)[0]))))[2] && result0[3] == cmac(fNwkSIntKey, cat(blk_up0(da, fc, 1 + len(callres("(MACPayload).MarshalBinary", 0)[0])), cat(seq(hb), bytes(callres("(MACPayload).MarshalBinary", 0)[0]))))[3]
-//@   ensures C02/mic11: err == nil && macVersion != LoRaWAN1_0 ==> result0[0] == cmac(sNwkSIntKey, cat(blk_up1(conf_up(ack, confFCnt), txDR, txCh, da, fc, 1 + len(callres("(MACPayload).MarshalBinary", 0)[0])), cat(seq(hb), bytes(callres("(MACPayload).MarshalBinary", 0)[0]))))[0] && result0[1] == cmac(sNwkSIntKey, cat(blk_up1(conf_up(ack, confFCnt), txDR, txCh, da, fc, 1 + len(callres("(MACPayload).MarshalBinary", 0)[0])), cat(seq(hb), bytes(callres("(MACPayload).MarshalBinary", 0)[0]))))[1] && result0[2] == cmac(fNwkSIntKey, cat(blk_up0(da, fc, 1 + len(callres("(MACPayload).MarshalBinary", 0)[0])), cat(seq(hb), bytes(callres("(MACPayload).MarshalBinary", 0)[0]))))[0] && result0[3] == cmac(fNwkSIntKey, cat(blk_up0(da, fc, 1 + len(callres("(MACPayload).MarshalBinary", 0)[0])), cat(seq(hb), bytes(callres("(MACPayload).MarshalBinary", 0)[0]))))[1]
+//@   ensures C02,C05/mic10: err == nil && macVersion == LoRaWAN1_0 ==> result0[0] == cmac(fNwkSIntKey, cat(blk_up0(da, fc, 1 + len(callres("(MACPayload).MarshalBinary", 0)[0])), cat(seq(hb), bytes(callres("(MACPayload).MarshalBinary", 0)[0]))))[0] && result0[1] == cmac(fNwkSIntKey, cat(blk_up0(da, fc, 1 + len(callres("(MACPayload).MarshalBinary", 0)[0])), cat(seq(hb), bytes(callres("(MACPayload).MarshalBinary", 0)[0]))))[1] && result0[2] == cmac(fNwkSIntKey, cat(blk_up0(da, fc, 1 + len(callres("(MACPayload).MarshalBinary", 0)[0])), cat(seq(hb), bytes(callres("(MACPayload).MarshalBinary", 0)[0]))))[2] && result0[3] == cmac(fNwkSIntKey, cat(blk_up0(da, fc, 1 + len(callres("(MACPayload).MarshalBinary", 0)[0])), cat(seq(hb), bytes(callres("(MACPayload).MarshalBinary", 0)[0]))))[3]
+//@   ensures C02,C05/mic11: err == nil && macVersion != LoRaWAN1_0 ==> result0[0] == cmac(sNwkSIntKey, cat(blk_up1(conf_up(ack, confFCnt), txDR, txCh, da, fc, 1 + len(callres("(MACPayload).MarshalBinary", 0)[0])), cat(seq(hb), bytes(callres("(MACPayload).MarshalBinary", 0)[0]))))[0] && result0[1] == cmac(sNwkSIntKey, cat(blk_up1(conf_up(ack, confFCnt), txDR, txCh, da, fc, 1 + len(callres("(MACPayload).MarshalBinary", 0)[0])), cat(seq(hb), bytes(callres("(MACPayload).MarshalBinary", 0)[0]))))[1] && result0[2] == cmac(fNwkSIntKey, cat(blk_up0(da, fc, 1 + len(callres("(MACPayload).MarshalBinary", 0)[0])), cat(seq(hb), bytes(callres("(MACPayload).MarshalBinary", 0)[0]))))[0] && result0[3] == cmac(fNwkSIntKey, cat(blk_up0(da, fc, 1 + len(callres("(MACPayload).MarshalBinary", 0)[0])), cat(seq(hb), bytes(callres("(MACPayload).MarshalBinary", 0)[0]))))[1]
 
 //@ func (*PHYPayload).calculateDownlinkDataMIC
 //@   props C02 C10
@@ -1004,36 +1006,36 @@ package lorawan
 //@   let ack = mpl(p).FHDR.FCtrl.ACK
 //@   let hb = mhdr_byte(p.MHDR)
 //@   ensures C02/type: err == nil ==> istype(p.MACPayload, "*MACPayload")
-//@   ensures C02/mic: err == nil ==> result0[0] == cmac(sNwkSIntKey, cat(blk_down0(conf_down(macVersion, ack, confFCnt), da, fc, 1 + len(callres("(MACPayload).MarshalBinary", 0)[0])), cat(seq(hb), bytes(callres("(MACPayload).MarshalBinary", 0)[0]))))[0] && result0[1] == cmac(sNwkSIntKey, cat(blk_down0(conf_down(macVersion, ack, confFCnt), da, fc, 1 + len(callres("(MACPayload).MarshalBinary", 0)[0])), cat(seq(hb), bytes(callres("(MACPayload).MarshalBinary", 0)[0]))))[1] && result0[2] == cmac(sNwkSIntKey, cat(blk_down0(conf_down(macVersion, ack, confFCnt), da, fc, 1 + len(callres("(MACPayload).MarshalBinary", 0)[0])), cat(seq(hb), bytes(callres("(MACPayload).MarshalBinary", 0)[0]))))[2] && result0[3] == cmac(sNwkSIntKey, cat(blk_down0(conf_down(macVersion, ack, confFCnt), da, fc, 1 + len(callres("(MACPayload).MarshalBinary", 0)[0])), cat(seq(hb), bytes(callres("(MACPayload).MarshalBinary", 0)[0]))))[3]
+//@   ensures C02,C05/mic: err == nil ==> result0[0] == cmac(sNwkSIntKey, cat(blk_down0(conf_down(macVersion, ack, confFCnt), da, fc, 1 + len(callres("(MACPayload).MarshalBinary", 0)[0])), cat(seq(hb), bytes(callres("(MACPayload).MarshalBinary", 0)[0]))))[0] && result0[1] == cmac(sNwkSIntKey, cat(blk_down0(conf_down(macVersion, ack, confFCnt), da, fc, 1 + len(callres("(MACPayload).MarshalBinary", 0)[0])), cat(seq(hb), bytes(callres("(MACPayload).MarshalBinary", 0)[0]))))[1] && result0[2] == cmac(sNwkSIntKey, cat(blk_down0(conf_down(macVersion, ack, confFCnt), da, fc, 1 + len(callres("(MACPayload).MarshalBinary", 0)[0])), cat(seq(hb), bytes(callres("(MACPayload).MarshalBinary", 0)[0]))))[2] && result0[3] == cmac(sNwkSIntKey, cat(blk_down0(conf_down(macVersion, ack, confFCnt), da, fc, 1 + len(callres("(MACPayload).MarshalBinary", 0)[0])), cat(seq(hb), bytes(callres("(MACPayload).MarshalBinary", 0)[0]))))[3]
 
 // Set*/Validate* use the value computed by calculate* (callres: the result of that call on the path)
 //@ func (*PHYPayload).SetUplinkDataMIC
 //@   props C02 C10
 //@   requires typed-nil: istype(p.MACPayload, "*MACPayload") ==> mpl(p) != nil
 //@   modifies p.MIC
-//@   ensures C02/set: err == nil ==> p.MIC == callres("(*PHYPayload).calculateUplinkDataMIC", 0)[0]
+//@   ensures C02,C05/set: err == nil ==> p.MIC == callres("(*PHYPayload).calculateUplinkDataMIC", 0)[0]
 //@   ensures C10/keep: err != nil ==> p.MIC == old(p.MIC)
 //@ func (*PHYPayload).SetDownlinkDataMIC
 //@   props C02 C10
 //@   requires typed-nil: istype(p.MACPayload, "*MACPayload") ==> mpl(p) != nil
 //@   modifies p.MIC
-//@   ensures C02/set: err == nil ==> p.MIC == callres("(*PHYPayload).calculateDownlinkDataMIC", 0)[0]
+//@   ensures C02,C05/set: err == nil ==> p.MIC == callres("(*PHYPayload).calculateDownlinkDataMIC", 0)[0]
 //@   ensures C10/keep: err != nil ==> p.MIC == old(p.MIC)
 //@ func (PHYPayload).ValidateUplinkDataMIC
 //@   props C02 C10
 //@   requires typed-nil: istype(p.MACPayload, "*MACPayload") ==> mpl(p) != nil
 //@   modifies nothing
-//@   ensures C02/validate: err == nil ==> result0 == (p.MIC == callres("(*PHYPayload).calculateUplinkDataMIC", 0)[0])
+//@   ensures C02,C05/validate: err == nil ==> result0 == (p.MIC == callres("(*PHYPayload).calculateUplinkDataMIC", 0)[0])
 //@ func (PHYPayload).ValidateDownlinkDataMIC
 //@   props C02 C10
 //@   requires typed-nil: istype(p.MACPayload, "*MACPayload") ==> mpl(p) != nil
 //@   modifies nothing
-//@   ensures C02/validate: err == nil ==> result0 == (p.MIC == callres("(*PHYPayload).calculateDownlinkDataMIC", 0)[0])
+//@   ensures C02,C05/validate: err == nil ==> result0 == (p.MIC == callres("(*PHYPayload).calculateDownlinkDataMIC", 0)[0])
 //@ func (PHYPayload).ValidateUplinkDataMICF
 //@   props C02 C10
 //@   requires typed-nil: istype(p.MACPayload, "*MACPayload") ==> mpl(p) != nil
 //@   modifies nothing
-//@   ensures C02/validate: err == nil ==> result0 == (p.MIC[2] == callres("(*PHYPayload).calculateUplinkDataMIC", 0)[0][2] && p.MIC[3] == callres("(*PHYPayload).calculateUplinkDataMIC", 0)[0][3])
+//@   ensures C02,C05/validate: err == nil ==> result0 == (p.MIC[2] == callres("(*PHYPayload).calculateUplinkDataMIC", 0)[0][2] && p.MIC[3] == callres("(*PHYPayload).calculateUplinkDataMIC", 0)[0][3])
 
 // ---------------------------------------------------------------------------
 // C20: TXParamSetupReq EIRP coding (LoRaWAN 1.0.2+ §5.8): index -> dBm
@@ -1206,3 +1208,13 @@ package lorawan
 //@ func lemmaC01_cflist_chmask
 //@   props C01
 //@   inlines (CFList).MarshalBinary (*CFList).UnmarshalBinary (CFListChannelMaskPayload).MarshalBinary (*CFListChannelMaskPayload).UnmarshalBinary
+//@ func bytesEqualIdx
+//@   modifies nothing
+//@   ensures eq: result <==> (len(a) == len(b) && forall i int :: 0 <= i && i < len(a) ==> a[i] == b[i])
+//@   loop 0: invariant idx: rangeindex >= 0 - 1 && rangeindex < len(a) && len(a) == len(b)
+//@   loop 0: invariant prefix: forall i int :: 0 <= i && i <= rangeindex ==> a[i] == b[i]
+//@   loop 0: decreases len(a) - rangeindex
+//@ func lemmaC05_frm_cipher
+//@   props C05
+//@ func lemmaC05_fopts_cipher
+//@   props C05
